@@ -290,7 +290,7 @@ def run(ctx):
         ctx.use(m)
         for c in calls_in(m.tree, nested=True):
             scanned += 1
-            if isinstance(c.func, ast.Attribute) and c.func.attr == "timestamp" and not c.args:
+            if isinstance(c.func, ast.Attribute) and c.func.attr in ("timestamp", "total_seconds") and not c.args:
                 fn = enclosing_function(c)
                 ctx.fail("R13.5", f"{modname.replace('flow.record.', '')}:{qualname_of(fn).split('.')[-1] if fn else ''}:timestamp()",
                          f"`{norm(c)}` turns a timestamp into float seconds on the storage path: microseconds are lost outside ~1700-2240 and year-9999 values overflow on read",
